@@ -20,6 +20,8 @@ inductive Clause
   | cachedEqualsDirect   -- resolution from the `resolvedMacros` cache gives the command / argv of the direct resolution
   | fillNotRun           -- the pass that fills `resolvedMacros` starts no process
   | noCrash              -- macro expansion always terminates with a value or an error: never a crash, abort or hang
+  | signalUnknown        -- a plugin that ends without an exit code of its own (terminated by a signal) is UNKNOWN
+  | envVerbatim          -- environment variables of the command carry the macro values verbatim
   deriving Repr, DecidableEq
 
 def Clause.name : Clause → String
@@ -27,7 +29,7 @@ def Clause.name : Clause → String
   | .argvMatchesCommand => "argv_matches_command" | .stringCmdVerbatim => "string_cmd_verbatim"
   | .failedNotRun => "failed_not_run" | .timeoutUnknown => "timeout_unknown"
   | .argvLayout => "argv_layout" | .cachedEqualsDirect => "cached_equals_direct" | .fillNotRun => "fill_not_run"
-  | .noCrash => "no_crash"
+  | .noCrash => "no_crash" | .signalUnknown => "signal_unknown" | .envVerbatim => "env_verbatim"
 
 /-- Exit codes 0/1/2/3 map to OK/WARNING/CRITICAL/UNKNOWN and anything else to UNKNOWN. -/
 def specState (exit : Int) : Nat :=
@@ -93,6 +95,8 @@ def Val.elems : Val → List Bytes
   | .arr l => l
   | .str b => [b]
   | .empty => [[]]
+  | .bool b => [boolBytes b]
+  | .num n => [intBytes n]
 
 def elemSlots (addKey addValue hasSep : Bool) : List Slot :=
   if addKey && addValue && hasSep then [.keyValue]
@@ -274,5 +278,21 @@ def specFailed (ran : Bool) (obsState : Nat) (obsExit : Int) : Option Clause :=
     The wording of the marker the implementation puts into the output is not part of the property. -/
 def specTimeout (obsState : Nat) (gone : Bool) : Option Clause :=
   if obsState = 3 ∧ gone then none else some .timeoutUnknown
+
+/-- "Exit codes 0/1/2/3 map to OK/WARNING/CRITICAL/UNKNOWN and anything else to UNKNOWN": a plugin that is
+    terminated by a signal (SIGSEGV, SIGHUP, SIGKILL by the OOM killer, …) has no exit code at all — it is
+    UNKNOWN, whatever the number of the signal (SIGHUP = 1 is not WARNING). -/
+def specSignal (obsState : Nat) : Option Clause :=
+  if obsState = 3 then none else some .signalUnknown
+
+/-- Macro values are inserted verbatim into the environment of the plugin as well: the variable holds the
+    text of the definition with every macro replaced by its value (an array value: its elements joined by
+    `;`), no quoting added, nothing interpreted.  `expected`: that text (`none`: a macro without value —
+    the property does not say what the variable holds then); `seen`: what the plugin found in its
+    environment (`none`: variable absent). -/
+def specEnv (expected : Option Bytes) (seen : Option Bytes) : Option Clause :=
+  match expected with
+  | none => none
+  | some e => if seen = some e then none else some .envVerbatim
 
 end Icinga.C09
